@@ -4,7 +4,7 @@ from __future__ import annotations
 import sys
 
 from vt import util
-from vt.gen import corpus
+from vt.gen import corpus, refnest
 
 PID = "C32"
 LEVEL = "exploration"
@@ -21,7 +21,14 @@ RULE = ("generated programs (statement programs, inheritance chains, include/imp
         "make_module(vars), make_module_async) under the same monitor; wrappers record get_template / "
         "select_template / get_or_select_template(parent, names); every observed key must be in "
         "find_undeclared_variables(parse(T)) or an environment/template global, every observed load must "
-        "be listed by find_referenced_templates(parse(T)) or that list contains None. distinct = distinct "
+        "be listed by find_referenced_templates(parse(T)) or that list contains None. Every include/import "
+        "set is additionally run RE-NESTED (vt.gen.refnest): its reference statements (with the uses that "
+        "follow them) moved, one or two levels deep, below every statement-holding position of the language "
+        "- if / elif #1-#3 / else arms, for body / for else, call, filter, set and autoescape blocks - and "
+        "existing ifs above a reference (conditional extends included, inheritance chains too) shifted so "
+        "that their arms become elif arms; added data select the arm holding the reference (85%) or another "
+        "one; a marker global counts the positions really executed (nested_ref_arm_executed:<position>). "
+        "distinct = distinct "
         "(program shape) with >= 1 observed lookup")
 LEVEL_TEXT = "held on the generated programs only"
 ASSUMPTIONS = ["code generated from a template is recognised by its compiler-made module globals (`name`, "
@@ -31,10 +38,16 @@ ASSUMPTIONS = ["code generated from a template is recognised by its compiler-mad
                "Context.get_exported (documented) is counted to show that module construction was observed"]
 NSHARDS = {"quick": 16, "thorough": 16}
 BUDGET_S = {"quick": 20, "thorough": 500}
+QN = 130
+QD = 120
+QARMS = {"if.if": 30, "if.elif": 90, "if.else": 38, "for.body": 28, "for.else": 30, "call": 30, "filter": 30,
+         "setblock": 35, "autoescape": 32, "if.elif(shifted)": 12}
+assert set(QARMS) == set(refnest.LABELS)
 FLOORS = {
     "quick": {"evaluations": 1500, "distinct": 300,
               "counters": {"lookup_events": 10000, "load_events": 800, "distinct_keys_checked": 2000,
                            "respelled_reference_cases": 40,
+                           "renested_reference_cases": QN, "renested_depth2_sites": QD, **{"nested_ref_arm_executed:" + k: v for k, v in QARMS.items()},
                            "module_constructions": 3500, "module_constructions_ok": 2800,
                            "module_builds_by_api": 2800, "module_builds_during_render": 250,
                            "import_target_modules_observed": 220, "module_lookup_events": 10000,
@@ -45,6 +58,8 @@ FLOORS = {
     "thorough": {"evaluations": 40000, "distinct": 5000,
                  "counters": {"lookup_events": 300000, "load_events": 20000, "distinct_keys_checked": 60000,
                               "respelled_reference_cases": 1000,
+                              "renested_reference_cases": 25 * QN, "renested_depth2_sites": 25 * QD,
+                              **{"nested_ref_arm_executed:" + k: 25 * v for k, v in QARMS.items()},
                               "module_constructions": 50000, "module_constructions_ok": 40000,
                               "module_builds_by_api": 40000, "module_builds_during_render": 4000,
                               "import_target_modules_observed": 3300, "module_lookup_events": 200000,
@@ -194,6 +209,8 @@ def check_case(ctx, case, is_async, respelled=None):
 
     lookups, loads, stats = [], [], {}
     env = make_recording_env(case, is_async, lookups, loads, stats, respelled)
+    marks = []
+    env.globals["vt_mark"] = marks.append      # re-nested cases: which positions were executed
     srcs = corpus.sources(case) if respelled is None else {n: s for n, s in respelled.items() if n in case["asts"]}
     if respelled is not None:
         ctx.count("respelled_reference_cases")
@@ -211,6 +228,9 @@ def check_case(ctx, case, is_async, respelled=None):
         ctx.count("render_raises")
     ctx.count("lookup_events", len(lookups))
     ctx.count("load_events", len(loads))
+    for m in marks:
+        ctx.count("nested_ref_arm_executed:" + str(m))
+    del marks[:]
     seen = set()
     judge_lookups(ctx, case, is_async, env, srcs, static_vars, lookups, "render", seen)
     for parent, fn, names in loads:
@@ -286,6 +306,14 @@ def run(ctx):
         check_case(ctx, case, is_async=(i % 4 == 3))
         if case["kind"] in ("incimp", "inherit") and i % 2 == 0:
             check_case(ctx, case, is_async=(i % 4 == 2), respelled=respell(case, rng))
+        if case["kind"] in ("incimp", "inherit"):
+            nested, labels = refnest.nest_case(case, rng)
+            if nested is not None:
+                ctx.count("renested_reference_cases")
+                ctx.count("renested_depth2_sites", labels.count("depth2"))
+                check_case(ctx, nested, is_async=(i % 4 == 1))
+                if i < 4:
+                    ctx.sample({"renested_sources": corpus.sources(nested)})
         if i < 2:
             ctx.sample({"sources": corpus.sources(case)})
         i += 1
